@@ -585,7 +585,7 @@ def build_file(unit):
         for seg, child in node.items():
             p = path + [seg]
             mp = "::".join(p)
-            s += f"pub mod {seg} {{\n#[allow(unused_imports)] use crate::*;\n"
+            s += f"pub mod {seg} {{\n#[allow(unused_imports)] use crate::*;\n#[allow(unused_imports)] use core::mem;\n"
             if mp in side.module:
                 s += f"// ==== sidecar module {mp} ====\n" + Sidecar.txt(side.module[mp]) + "\n"
             for it in modules.get(mp, []):
